@@ -95,12 +95,17 @@ def make_grammar(r, shell):
                 stmts.append(defn(nm, o, cmd('echo o%d' % i)))
     for sp in special:
         # the predefined names may be (re)defined by the grammar like any other name
-        if sp != '_' and r.random() < 0.35:
-            stmts.append(defn(sp, None, alt(lit('pd1'), lit('pd2'))))
-        elif sp != '_' and r.random() < 0.2:
+        if r.random() < 0.35:
+            stmts.append(defn(sp, None, alt(lit('pd1'), lit('pd2')) if sp != '_' or r.random() < 0.5 else cmd('echo us')))
+        elif r.random() < 0.2:
             stmts.append(defn(sp, shell, cmd('echo special')))
     if not special and r.random() < 0.1:
         stmts.append(defn('DIRECTORY', None, lit('unused-dir-def')))
+    if '_' not in special and r.random() < 0.1:
+        # `_` defined but never referred to: exempt from "Undefined" only, not from "Unused"
+        stmts.append(defn('_', None, cmd('echo unused underscore')))
+        if r.random() < 0.5:
+            stmts.append(defn('_', shell, cmd('echo unused underscore spec')))
     ncalls = r.randint(1, 2)
     calls = []
     for c in range(ncalls):
